@@ -42,6 +42,7 @@ type flowParams struct {
 	Retries        int                 `json:"max_retries"`
 	Procs          []procParam         `json:"procs"`
 	PointOnly      []string            `json:"point_only"`       // preemptive part: sweep only points of these files
+	MaxOcc         int                 `json:"max_occurrence"`   // preemptive part: sweep the first MaxOcc occurrences of every site (default 2)
 	LateOpen       []string            `json:"late_open"`        // destinations whose Open gate sorts last (stays pending by default)
 	LateCommit     bool                `json:"late_commit"`      // store commits stay in flight until nothing else can run (exploration order)
 	FailDispense   []string            `json:"fail_dispense"`    // plugins whose next dispense fails once (the first start cannot build its nodes)
@@ -94,6 +95,9 @@ func (p flowParams) name() string {
 	}
 	if len(p.PointOnly) > 0 {
 		n += "/points=" + strings.Join(p.PointOnly, ",")
+	}
+	if p.MaxOcc > 0 {
+		n += fmt.Sprintf("/occ%d", p.MaxOcc)
 	}
 	if p.LateCommit {
 		n += "/latecommit"
@@ -706,6 +710,9 @@ func TestVerifFlowPreempt(t *testing.T) {
 			e.CandidateBound = 1
 		}
 		e.SiteWide = sc.p.SiteWide
+		if sc.p.MaxOcc > 0 {
+			e.MaxPointOccurrence = sc.p.MaxOcc
+		}
 		if e.SiteWide {
 			e.CandidateBound = 1 // sites are few: also take those only failing / stopping runs reach
 		}
